@@ -20,8 +20,9 @@ CLAIM = {
             "repetition lists, nil for absent options, [r1,[[sep,r]...]] for R1 % R2, pairs for ++ with touching tokens). "
             "The model is tied to the code on every run by a differential run of the extracted pipeline (grammar parser -> "
             "compiler -> matcher) against tpl.New + Compiler.Match on generated grammar x input texts.",
-    "note": "Trusted: Coq kernel, extraction, harness, tpl/scanner (token streams are taken from it). RetProcs (hence Dyn errors) "
-            "are not modelled; strconv.Unquote results are inputs of the model; error values/positions are not compared. "
+    "note": "Trusted: Coq kernel, extraction, harness, tpl/scanner (token streams are taken from it). RetProcs and Dyn errors are "
+            "modelled separately (Model/TplRp.v, conservative over the RetProc-free model) and tied by the same differential run; "
+            "strconv.Unquote results are inputs of the model; error values/positions are not compared. "
             "Grammars on which the model runs out of its proven fuel bound (nullable repetition bodies, left recursion: "
             "C28's known findings) are not run on the implementation here.",
 }
@@ -99,20 +100,35 @@ def run(ctx):
                 sent = tplm.mutate_sentence(rng, sent)
             cases.append((gtext, tplm.sentence_text(sent).encode()))
             meta.append(("choice-commit", rules, None))
+    # result rewriters (RetProcs) and runtime (Dyn) errors: what every combinator does with them (Model/TplRp.v)
+    for g, t, rps in tplm.retproc_family():
+        cases.append((g, t, rps))
+        meta.append(("retproc", None, None))
+    for _ in range(ctx.n(100, 5000)):
+        rules = tplm.gen_grammar(rng, recursive=False)
+        gtext = tplm.grammar_text(rules).encode()
+        rps = tplm.gen_retprocs(rng, rules)
+        for _ in range(2):
+            sent = tplm.derive(rng, ("ref", rules[0][0]), rules)
+            if rng.below(2):
+                sent = tplm.mutate_sentence(rng, sent)
+            cases.append((gtext, tplm.sentence_text(sent[:12]).encode(), rps))
+            meta.append(("retproc-seeded", None, None))
     res = tplm.run_pipeline(ctx, cases)
+    cases = [(c[0], c[1], c[2] if len(c) > 2 else "-") for c in cases]
     if res is None:
         return
     mlines, mout, rows = res
     idx = [i for i in range(len(cases)) if rows[i] is not None]
     nfuel = len(cases) - len(idx)
     ctx.diff_lines("match_doc~Compiler.Match",
-                   ["%s | %s" % (cases[i][0].decode("utf-8", "replace").replace("\n", " ; "), cases[i][1].decode("utf-8", "replace")) for i in idx],
+                   ["%s | %s | %s" % (cases[i][0].decode("utf-8", "replace").replace("\n", " ; "), cases[i][1].decode("utf-8", "replace"), cases[i][2]) for i in idx],
                    "\n".join(rows[i][0] for i in idx), "\n".join(mout[i] for i in idx))
     nref = 0
     outcome, cats = {}, {}
     for i in idx:
         cat, rules, want = meta[i]
-        g, t = cases[i]
+        g, t, rps = cases[i]
         r = rows[i]
         k = r[0].split(" ")[0]
         outcome[k] = outcome.get(k, 0) + 1
@@ -122,16 +138,16 @@ def run(ctx):
             desc = r[1]
         elif want is not None and r[0] != want:
             desc = "README example: expected %s" % want
-        elif rules is not None and k in ("ok", "fail"):
+        elif rules is not None and rps == "-" and k in ("ok", "fail"):
             exp = tplm.ref_result(rules, mlines[i])
             if exp is not None:
                 nref += 1
                 if exp != r[0]:
                     desc = "reference semantics gives %s" % exp
         if desc:
-            ctx.fail(tplm.key_of(g, t), "Match(%r, %r) = %s: %s" % (g.decode("utf-8", "replace"), t.decode("utf-8", "replace"), r[0][:200], desc),
-                     {"grammar": g.decode("utf-8", "replace"), "input": t.decode("utf-8", "replace"), "impl": r[0], "model": mout[i], "why": desc})
-    nontriv = len(set(c for i, c in enumerate(cases) if rows[i] is not None and rows[i][0].split(" ")[0] in ("ok", "fail")
+            ctx.fail(tplm.key_of(g, t, rps), "Match(%r, %r, retprocs=%s) = %s: %s" % (g.decode("utf-8", "replace"), t.decode("utf-8", "replace"), rps, r[0][:200], desc),
+                     {"grammar": g.decode("utf-8", "replace"), "input": t.decode("utf-8", "replace"), "retprocs": rps, "impl": r[0], "model": mout[i], "why": desc})
+    nontriv = len(set(c[:2] for i, c in enumerate(cases) if rows[i] is not None and rows[i][0].split(" ")[0] in ("ok", "fail")
                       and len(mlines[i].split("\t")[0].split(" ")) >= 6))
     pick = [0, len(README) + 3, len(README) + 400, len(cases) - 2]
     ctx.cover(evaluations=len(idx), distinct_nontrivial=nontriv,
@@ -141,6 +157,8 @@ def run(ctx):
                    "sequence, choice, * + ?, %%, ++, token classes, keywords, operator literals in \"\" and '' form, SPACE, \"\", "
                    "references mostly to later rules, 1/6 arbitrary) x 4 inputs each: 2 derived from the grammar, 2 mutated into "
                    "near-matches (token dropped/duplicated/swapped/replaced/inserted, adjacency toggled, comment inserted); "
+                   "plus the RetProc family of checks/tplm.py (rewriters rejecting a literal with a Dyn / plain error, wrap, identity, in 13 "
+                   "contexts x 14 inputs) and seeded grammars with random rewriters (compared with the model only); "
                    "plus a choice-commit family: 2-3 options starting with equal / overlapping / disjoint first tokens "
                    "(keyword vs keyword, keyword vs IDENT class, optional heads) x 3 inputs. "
                    "Not run on the implementation: %d pairs on which the model exceeds its fuel bound (nullable repetition / left "
@@ -149,5 +167,6 @@ def run(ctx):
               outcome_histogram=outcome, category_histogram=cats, model_fuel_cases=nfuel, reference_oracle_cases=nref)
     ctx.trust("modelled, not verified: tpl/matcher/match.go, tpl/cl/compile.go, tpl/parser/parser.go (hand-written Gallina models "
               "tied by differential run); tpl/scanner and strconv.Unquote/UnquoteChar are used as they are")
-    ctx.assume("no RetProcs (tpl.New(src) without params): Dyn errors cannot occur",
+    ctx.assume("the theorems of Props/C29.v are about grammars without RetProcs; with RetProcs the Dyn-error behaviour is modelled "
+               "(Model/TplRp.v) and compared with the implementation, not proved against a specification",
                "Choice matchers have at least one option (guaranteed by the TPL parser)")
